@@ -228,6 +228,20 @@ register("C10",
          "TLA+ integer model of the frame loop checked by TLC + TLC evaluator (spec->code) compared atom by atom",
          "DESIGN.md §4 C10")
 
+register("C11",
+         "Assign.tla states the assignment as three arg-min decisions over distance tables with a uniqueness margin, the index "
+         "composition (t*n_o+o)*n_b+b and the outlier rule; TLC checks on all integer radial grids from a pool and all "
+         "distances that 'nearest radius' and 'shell whose midpoint boundaries contain the distance' coincide. The driver "
+         "generates rigid placements itself (the grid's own rows plus continuous random rotations and positions up to 1.2x "
+         "the outer boundary), builds the frames with MDAnalysis directly, lets the real AssignmentTool assign them (both "
+         "outlier modes, three molecules incl. a planar one) and logs for every frame the distances of the TRUE placement to "
+         "every radius, direction and grid rotation as fixed point; TLC performs arg-min, margin, composition and the NaN "
+         "rule and names the failing index.",
+         "Distances of the true placement computed numerically by the harness (numpy) from the placement it generated itself; "
+         "margin 2e-3; molecules with three distinct principal moments and no atom on a principal axis.",
+         "TLA+ decision model checked by TLC + TLC trace validation of the assignment tool on generated placements",
+         "DESIGN.md §4 C11")
+
 ALL = [f"C{i:02d}" for i in range(1, 21)]
 
 
